@@ -424,6 +424,7 @@ def check(c, tier, replay):
                       'Sleep does not advance the virtual clock: arrival instants are the scenario\'s, waits are recorded',
                       'sequential callers (one request at a time); argument values are hashable',
                       'TLC model checking is exhaustive only for the bounded instances listed in tlc_runs']
+    if thorough: import stages; stages.run_stage(c, 'LRU', 'lru_stage')   # the cache "capacity not exceeded" rests on (checks/LRU.py, spec/Lru.tla)
 
 
 main('C05', check)
